@@ -1182,6 +1182,86 @@ func areaConc(r *Rng, n int, dir string) (*AreaOut, error) {
 		}
 	}
 
+	// --- the receiver stays usable while an event it publishes waits for a slow subscriber
+	{
+		out.OracleN++
+		st := memory.New()
+		sn := buildSnapshot(3, 1, "peer", 1700000000000000000, []snapDBI{{Name: "data", Entries: []snapshot.KV{{Key: []byte("k"), Value: []byte("v"), TimestampNano: 5}}}})
+		if blob, _, err := snapshot.DumpData(sn); err == nil {
+			_ = st.Store(context.Background(), snapshot.Name(dbName, "peer", "G", time.Unix(1700000000, 0)), blob)
+		}
+		ev := events.New()
+		c := config.Config{StoragePollInterval: time.Hour, MemoryDownloadedSnapshots: 2, MemoryDecompressedSnapshots: 2}
+		rc := receiver.New(st, c, dbName, logrus.StandardLogger(), "self", ev, hooks.New())
+		sub := ev.LastSeenSnapshotByInstance.Subscribe(false) // a subscriber that is slow to take the event
+		ctx, cancel := context.WithCancel(context.Background())
+		ran := make(chan error, 1)
+		go func() { ran <- rc.RunOnce(ctx, true) }()
+		time.Sleep(50 * time.Millisecond) // RunOnce is now (legitimately) waiting for the subscriber
+		polled := make(chan struct{})
+		go func() {
+			_ = rc.SeenInstances()
+			_ = rc.HasSnapshots()
+			close(polled)
+		}()
+		select {
+		case <-polled:
+		case <-time.After(3 * time.Second):
+			out.Oracle = append(out.Oracle, OracleFailure{"C17", "receiver-blocked-by-subscriber", "Receiver.SeenInstances/HasSnapshots blocked for 3 s while RunOnce was delivering LastSeenSnapshotByInstance to a subscriber that had not taken it yet: the sync loop (which calls them, and Next) would hang uncancellably", nil})
+		}
+		go func() { // now take the event
+			c2, cf := context.WithTimeout(context.Background(), 3*time.Second)
+			defer cf()
+			_, _ = sub.Next(c2)
+			sub.Close()
+		}()
+		select {
+		case <-ran:
+		case <-time.After(4 * time.Second):
+		}
+		cancel()
+		hist(out.Hist, "receiver-slow-subscriber")
+	}
+	// --- when Sync returns by itself (only_once) its cleaner and sweeper stop too, although the caller's context lives on
+	for _, shadow := range []bool{false, true} {
+		out.OracleN++
+		env, cleanup, err := newEnv()
+		if err != nil {
+			return nil, err
+		}
+		_ = concPutData(env, !shadow)
+		fs := &concFakeStore{Interface: memory.New(), entered: make(chan string, 4)}
+		sy, err := newSyncer(env, fs, syncerOpts{Native: !shadow, Mod: func(c *config.Config, lc *config.LMDB) {
+			c.OnlyOnce = true
+			c.LMDBPollInterval = time.Millisecond
+			c.StoragePollInterval = time.Millisecond
+			c.Storage.Cleanup = config.Cleanup{Enabled: true, Interval: 3 * time.Millisecond, MustKeepInterval: time.Second, RemoveOldInstancesInterval: time.Hour}
+			c.Sweeper = config.Sweeper{Enabled: true, RetentionDays: 1, Interval: 3 * time.Millisecond, FirstInterval: time.Millisecond, LockDuration: time.Millisecond, ReleaseDuration: time.Millisecond}
+		}})
+		if err != nil {
+			cleanup()
+			return nil, err
+		}
+		parent, cancelParent := context.WithCancel(context.Background())
+		ret := make(chan error, 1)
+		go func() { ret <- sy.Sync(parent) }()
+		select {
+		case <-ret:
+			time.Sleep(150 * time.Millisecond) // let everything that is going to stop, stop
+			l1 := fs.lists.Load()
+			time.Sleep(300 * time.Millisecond)
+			if l2 := fs.lists.Load(); l2 != l1 {
+				out.Oracle = append(out.Oracle, OracleFailure{"C17", "workers-outlive-sync", fmt.Sprintf("Sync (only_once, shadow=%v) had returned, its caller's context was still alive, and the bucket was listed %d more times in 300 ms: the cleaner (and sweeper) goroutines were not stopped", shadow, l2-l1), nil})
+			}
+		case <-time.After(5 * time.Second):
+			out.Oracle = append(out.Oracle, OracleFailure{"C17", "only-once-not-returned", fmt.Sprintf("Sync with only_once on an empty bucket did not return within 5 s (shadow=%v)", shadow), nil})
+		}
+		cancelParent()
+		time.Sleep(20 * time.Millisecond)
+		cleanup()
+		hist(out.Hist, "only-once-workers-stop")
+	}
+
 	// --- storage: child processes
 	nst := 6
 	if n > 200 {
